@@ -30,13 +30,14 @@ SIBLING = {'ia': 'ib', 'ib': 'ia'}
 HANDLES = [('fn', 'fA'), ('fn', 'fB'), ('st', 'M1'), ('st', 'M2'), ('if', 'M'), ('xf', 'X'), ('xf', 'Y'), ('xs', 'um'),
            ('var', 'v'), ('uvar', 'w'), ('i2', 'A'), ('i2', 'B')]
 VAR_KINDS = ('var', 'uvar')
-KEEP_KINDS = [('fn', 'fA'), ('st', 'M1'), ('xf', 'X'), ('xs', 'um'), ('if', 'M')]
+KEEP_KINDS = [('fn', 'fA'), ('st', 'M1'), ('xf', 'X'), ('xs', 'um'), ('if', 'M'), ('if', 'M')]
 PKG_KINDS = ('xf', 'xs')        # lookups that resolve a name in the builder's package
 STUBS = ('ret', 'when', 'whenret', 'rets')
 KEY_F7 = 'stub-after-apply-not-reinstalled'
 KEY_PKG = 'pkg-override-not-consumed-by-lookup'
 KEY_STALE = 'stale-handle'
 KEY_IF2 = 'iface-cancel-one-method'
+KEY_REVIVED = 'iface-revived-handle-replaced'
 
 
 # ------------------------------------------------------------------ the reference: last writer wins (independent of the Lean model)
@@ -145,8 +146,9 @@ def norm(t):
 class Obj:
     """What a lookup hands out (only used to tell which handle is stale; the property does not demand object identity)."""
 
-    def __init__(self, key, tgt, kind):
+    def __init__(self, key, tgt, kind, ctx=None):
         self.key, self.tgt, self.kind, self.canceled = key, tgt, kind, False
+        self.ctx, self.guard = ctx, False           # interface mockers: the context shared by the variable's methods; applied at least once
 
 
 class Ref:
@@ -159,21 +161,35 @@ class Ref:
         self.cache, self.regs = {}, {}
         self.stale_use = None                       # index of the first instruction issued through a stale handle
         self.if2_cancel = None                      # index of the first Cancel of one method of the two-method interface while the other is configured
-        self.iface_stale = False
+        self.ictx = {'if': None, 'i2': None}        # current context of each interface variable in the builder's cache
+        self.revived_replaced = None                # index of the lookup that replaced a cancelled-and-re-applied interface handle
+        self.iface_taint = None                     # from here on the Lean model (no context backup) is not compared
 
-    def lookup(self, kind, name, caller='p0'):
+    def lookup(self, kind, name, caller='p0', idx=None):
         key = (kind, name, self.pkg if kind in PKG_KINDS else '')
         tgt = tgt_name(kind, name, self.pkg)
         self.pkg = caller
         if kind == 'st' and name not in ('M1', 'M2'):
             return None
+        ctx = None
+        if kind in self.ictx:
+            # Builder.Interface: the cached mocker counts as cancelled iff its context is; a context is never revived
+            ctx = self.ictx[kind]
+            if ctx is None or ctx['canceled']:
+                for k in [k for k in self.cache if k[0] == kind]:
+                    old = self.cache.pop(k)
+                    if not old.canceled and old.guard and self.revived_replaced is None:
+                        self.revived_replaced = idx     # a handle that was applied again after its Cancel is pushed out of the cache
+                        if self.iface_taint is None:
+                            self.iface_taint = idx
+                ctx = self.ictx[kind] = {'canceled': False}
         o = self.cache.get(key)
         if o is None or o.canceled:
-            o = self.cache[key] = Obj(key, tgt, kind)
+            o = self.cache[key] = Obj(key, tgt, kind, ctx)
         return o
 
     def stale(self, o):
-        return self.cache.get(o.key) is not o or (o.kind == 'if' and o.canceled)
+        return self.cache.get(o.key) is not o
 
     def instr(self, o, ins, idx):
         if ins[0] == 'look':
@@ -181,11 +197,13 @@ class Ref:
         if self.stale(o):
             if self.stale_use is None:
                 self.stale_use = idx
-            if o.kind == 'if' or o.kind in VAR_KINDS:
-                self.iface_stale = True
+            if o.ctx is not None and self.iface_taint is None:
+                self.iface_taint = idx
         t = o.tgt
         if ins[0] == 'cancel':
             o.canceled = True
+            if o.ctx is not None and o.guard:
+                o.ctx['canceled'] = True             # ctx.Cancel(): the variable is restored and the shared context cancelled
             if t is not None:
                 if t in SIBLING and self.beh[t] != 'o' and self.beh[SIBLING[t]] != 'o' and self.if2_cancel is None:
                     self.if2_cancel = idx
@@ -193,8 +211,8 @@ class Ref:
             return
         if t is None or (ins[0] in STUBS and o.kind in VAR_KINDS):
             return                                   # rejected: nothing of that name / no such instruction on a variable
-        if o.kind != 'if':
-            o.canceled = False                       # applying again revives the mocker (50de3fa); an interface context stays cancelled
+        o.canceled = False                           # applying again revives the mocker (50de3fa); an interface CONTEXT stays cancelled
+        o.guard = True
         if ins[0] == 'apply':
             self.beh[t] = ins[1]
         elif isinstance(self.beh[t], RefWhen):
@@ -210,18 +228,20 @@ class Ref:
             self.beh = {x: 'o' for x in TARGETS}
             for o in self.cache.values():
                 o.canceled = True
+                if o.ctx is not None and o.guard:
+                    o.ctx['canceled'] = True
         elif t[0] == 'xfe' or t[0] == 'newq':
             pass                                     # ExportFunc("") is rejected before it is a lookup
         elif t[0] == 'qlook':
             self.lookup('fn', 'fA', caller='pq')
         elif t[0] == 'keep':
-            self.regs[t[1]] = self.lookup(t[2], t[3])
+            self.regs[t[1]] = self.lookup(t[2], t[3], idx=idx)
         elif t[0] == 'on':
             o = self.regs.get(t[1])
             if o is not None:
                 self.instr(o, t[2:], idx)
         else:
-            o = self.lookup(t[0], t[1])
+            o = self.lookup(t[0], t[1], idx=idx)
             if o is not None:
                 self.instr(o, t[2:], idx)
 
@@ -265,7 +285,9 @@ def oracle(hist, obs):
         if row != w:
             g, ww = row.split(','), w.split(',')
             only_if2 = all(g[j] == ww[j] for j in range(len(TARGETS) - 2))
-            if ref.stale_use is not None and i >= ref.stale_use:
+            if ref.revived_replaced is not None and i >= ref.revived_replaced and (ref.stale_use is None or ref.revived_replaced <= ref.stale_use):
+                key = KEY_REVIVED
+            elif ref.stale_use is not None and i >= ref.stale_use:
                 key = KEY_STALE
             elif ref.if2_cancel is not None and i >= ref.if2_cancel and only_if2:
                 key = KEY_IF2
@@ -332,7 +354,7 @@ def gen_instr(rng, kind='fn', w_apply=4, w_stub=6, w_cancel=2, w_look=2):
 
 def sanitize(ops):
     """Drop ops the probe cannot issue or the model does not cover: `on r` with an empty register, and instructions
-    through an interface handle after its own Cancel (context backup not modelled - Model/ApiC12.lean header)."""
+    kept variable / two-method-interface handles."""
     ref = Ref(bool(ops) and ops[0] == 'newq')
     out = []
     for i, op in enumerate(ops):
@@ -340,8 +362,6 @@ def sanitize(ops):
         if t[0] == 'on':
             o = ref.regs.get(t[1])
             if o is None or (t[2] in STUBS and o.kind in VAR_KINDS):
-                continue
-            if t[2] != 'look' and o.kind == 'if' and ref.stale(o):
                 continue
         if t[0] == 'keep' and (t[2] in VAR_KINDS or t[2] == 'i2'):
             continue
@@ -390,7 +410,7 @@ def gen_history(rng, maxlen, bad=False, keep=False):
 
 def systematic(depth):
     """All instruction sequences of length `depth` over a small alphabet on each handle kind (the F7 shapes are among them)."""
-    alpha = ['apply k1', 'apply k2', 'ret 3', 'ret 4', 'whenret 1 5', 'rets 6 7', 'cancel', 'look']
+    alpha = ['apply k2', 'apply k3', 'ret 3', 'ret 4', 'whenret 1 5', 'rets 6 7', 'cancel', 'look']     # k2, k3: closures of one literal
     valpha = ['apply k1', 'apply k2', 'cancel', 'look']
     out = []
 
@@ -440,6 +460,16 @@ def kept_lane(depth):
         # live kept handles only (no cancel before the second lookup: h0 and h1 are the same mocker)
         for q in seqs:
             hist.append(' ; '.join(['keep 0 %s %s' % (k, nm), 'on 0 ret 1', 'keep 1 %s %s' % (k, nm)] + q))
+    # one handle used on after its own Cancel / after Reset, no second lookup (a cancelled mocker that is applied again is
+    # live again; Cancel / Reset as the most recent instruction must still win) - interface method handles included
+    ends = ['on 0 cancel', 'reset']
+    for k, nm in [('fn', 'fA'), ('st', 'M1'), ('xf', 'X'), ('xs', 'um'), ('if', 'M'), ('if', 'M.a1')]:
+        mid = [[x] for x in ['on 0 ' + a for a in acts + ['whenret 1 5']]] + [['on 0 ret 6', 'on 0 apply k2'], ['on 0 apply k2', 'on 0 ret 6']]
+        for f in firsts:
+            for e1 in ends:
+                for m in mid:
+                    for e2 in ends + ['%s %s cancel' % (k, nm.split('.')[0])]:
+                        hist.append(' ; '.join(['keep 0 %s %s' % (k, nm), 'on 0 ' + f, e1] + m + [e2, 'on 0 ret 9', 'reset']))
     for q in [[a, b] for a in acts + ['whenret 1 5'] for b in acts + ['whenret 2 6']]:
         hist.append(' ; '.join(sanitize(['keep 0 if M.a1', 'on 0 ' + q[0], 'keep 1 if M.a2', 'on 1 ' + q[1], 'on 0 ret 7', 'if M ret 8'])))
     return hist
@@ -504,6 +534,9 @@ CORPUS = [
     'var v apply k1 ; var v apply k2 ; reset ; var v look ; uvar w apply k1 ; uvar w apply k2 ; uvar w cancel',   # review D5
     'newq ; xf X apply k1 ; xf X apply k2 ; qlook ; xf X apply k3 ; xf X ret 5',                        # review D1/D2
     'pkg p1 ; xfe ; xf X apply k1 ; xf X apply k2',                                                     # review A5
+    'keep 0 if M ; on 0 apply k1 ; reset ; on 0 apply k2 ; reset',                                       # seed out5/c12-1
+    'keep 0 if M.a1 ; on 0 ret 5 ; on 0 cancel ; on 0 ret 6 ; on 0 cancel ; if M look',
+    'keep 0 if M ; on 0 ret 1 ; on 0 cancel ; on 0 ret 2 ; if M ret 3 ; if M cancel',                    # HEAD: known finding iface-revived-handle-replaced
     'i2 A ret 1 ; i2 B ret 2 ; i2 A cancel ; i2 A ret 3',                                               # review A3
     'i2 A apply k1 ; i2 B look ; i2 A ret 3 ; i2 B whenret 1 5 ; i2 A cancel ; i2 B cancel ; reset ; i2 B apply k2',
 ]
@@ -531,7 +564,8 @@ def gen_all(tier, rng):
 # ------------------------------------------------------------------ running
 
 _BIN = {}
-PROBE_TIMEOUT = 1800          # per chunk; typical chunk wall time is a few seconds
+PROBE_TIMEOUT = 420           # per chunk of up to ~10k histories; typical chunk wall time is 2-15 s
+REDO_TIMEOUT = 120            # one history alone; typical 0.05 s
 
 
 def build_probe():
@@ -558,7 +592,7 @@ def probe_env(opsp, outp):
     return e
 
 
-def run_chunk(b, lines, tag):
+def run_chunk(b, lines, tag, timeout=None):
     """One probe process on `lines`. Returns (observations, rc) - rc None when the process was killed by the timeout."""
     opsp = os.path.join(C.BUILD, f'{tag}.ops')
     outp = os.path.join(C.BUILD, f'{tag}.impl')
@@ -566,8 +600,9 @@ def run_chunk(b, lines, tag):
     if os.path.exists(outp):
         os.remove(outp)
     try:
-        p = subprocess.run([b, '-test.run', '^TestVerifC12$', '-test.count=1', '-test.timeout', f'{PROBE_TIMEOUT}s'],
-                           env=probe_env(opsp, outp), cwd=C.BUILD, capture_output=True, text=True, timeout=PROBE_TIMEOUT + 120)
+        timeout = timeout or PROBE_TIMEOUT
+        p = subprocess.run([b, '-test.run', '^TestVerifC12$', '-test.count=1', '-test.timeout', f'{timeout + 60}s'],
+                           env=probe_env(opsp, outp), cwd=C.BUILD, capture_output=True, text=True, timeout=timeout)
         rc = p.returncode
     except subprocess.TimeoutExpired:
         rc = None
@@ -609,11 +644,11 @@ def run_impl(lines, tag):
     for k, i in enumerate(sorted(set(redo))):
         if i >= len(lines):
             continue
-        got, rc = run_chunk(b, [lines[i]], f'{tag}.redo{k}')
+        got, rc = run_chunk(b, [lines[i]], f'{tag}.redo{k}', timeout=REDO_TIMEOUT)
         if got[0] is not None and not got[0].startswith('dirty'):
             res[i] = got[0]
         elif rc is None:
-            raise C.Infra(f'probe timed out twice on `{lines[i]}` (machine overloaded?)')
+            res[i] = 'crash hang: no answer within %d s, alone in a fresh process (reproduced)' % REDO_TIMEOUT
         else:
             res[i] = got[0] if got[0] is not None else 'crash rc=%s' % rc
     return res
@@ -693,11 +728,15 @@ def run(tier):
                                           'how': 'GOOM_REPO=<tree> python3 check.py C12 --replay <this file>'}, key=key)
     real_fails = {k: v for k, v in fails.items() if k not in known_keys}
     # 2. correspondence (model vs implementation, stale-handle histories included) and reference vs model on the histories the theorem covers
-    diffs = C.diff_streams(lines, impl, model) if model is not None else []
+    # the Lean model has no context backup: after a revived interface handle was replaced / a replaced interface handle was
+    # used, only the steps before that point are compared (those histories are still judged by the reference above)
+    def cut(obs, r):
+        return obs if obs is None or r.iface_taint is None else ' ; '.join(obs.split(' ; ')[:r.iface_taint])
+    diffs = C.diff_streams(lines, [cut(o, r) for o, r in zip(impl, refs)], [cut(m, r) for m, r in zip(model, refs)]) if model is not None else []
     refdiff = 0
     if model is not None and lww is not None:
         for h, m, l, r in zip(hists, model, lww, refs):
-            covered = r.stale_use is None and not any(o.split()[0] == 'i2' for o in split_ops(h))   # hypothesis of refines_lww_partial
+            covered = r.stale_use is None and r.revived_replaced is None and not any(o.split()[0] == 'i2' for o in split_ops(h))   # hypothesis of refines_lww_partial
             if covered and [s.rpartition(' ')[2] for s in m.split(' ; ')] != l.split(' ; '):
                 refdiff += 1
     if not real_fails:
